@@ -72,6 +72,13 @@ class C14(Check):
                         yield {"algo": algo, "shape": list(shape), "family": group["family"], "rank": rank, "weights": "none", "fixed": fixed,
                                "container": container, "K": K, "seed": seed}
             return
+        if algo == "parafac":
+            # long runs with line search (it starts at sweep 7): fixed factors must stay bit-identical through accepted jumps too
+            for rank in ranks:
+                for w in ("none", "positive"):
+                    for fixed in ([0], [1], [0, 1], [1, 0]):
+                        yield {"algo": algo, "shape": list(shape), "family": group["family"], "rank": rank, "weights": w, "fixed": fixed,
+                               "container": "tuple", "K": 9 if tier == "quick" else 12, "seed": seed, "opts": {"linesearch": True}}
         for rank in ranks:
             wlist = [w for w in WEIGHTS if not (algo in NN and w in ("negative", "mixed"))]
             for w in wlist:
@@ -166,7 +173,10 @@ class C14(Check):
             np.random.seed(20260927)
             try:
                 if algo == "parafac":
-                    r = D.parafac(tl.tensor(X), rank, n_iter_max=k, init=init, tol=0, fixed_modes=list(fixed) if fixed else None)
+                    r = D.parafac(tl.tensor(X), rank, n_iter_max=k, init=init, tol=0, fixed_modes=list(fixed) if fixed else None,
+                                  return_errors=True, **case.get("opts", {}))
+                    if isinstance(r, tuple) and len(r) == 2 and isinstance(r[1], list) and not hasattr(r, "weights"):
+                        r = r[0]  # (cp, errors); the all-modes-fixed shortcut returns the bare CP tensor
                     return ("cp", r), init
                 if algo == "non_negative_parafac":
                     r = D.non_negative_parafac(tl.tensor(X), rank, n_iter_max=k, init=init, tol=itm.TINY, fixed_modes=list(fixed) if fixed else None)
